@@ -387,6 +387,44 @@ impl<'a> Snippet<'a> {
 
         let loc_prefix = l10n.snippet_location_prefix(*location);
 
+        // annotate-snippets cuts leading white space that all lines of a window share once there
+        // is a lot of it ("useless"), and takes it for granted that no marker points into what it
+        // cut: a location in or in front of the indentation of a deeply nested document (a tab
+        // used as indentation, say) had its marker drawn into the line-number gutter. Such a
+        // window is drawn by the renderer of the second window, which cuts nothing.
+        let shared_indent = window_text
+            .lines()
+            .filter(|l| !l.trim().is_empty())
+            .map(|l| {
+                l.chars()
+                    .take_while(|c| c.is_whitespace())
+                    .map(|c| if c == '\t' { 4 } else { 1 })
+                    .sum::<usize>()
+            })
+            .min()
+            .unwrap_or(0);
+        if shared_indent > 20 {
+            let last_row = window_start_absolute_row
+                .saturating_add(window_end_row.saturating_sub(window_start_row));
+            let gutter_width = last_row.to_string().len();
+            // (every caller passes `Level::ERROR`; the level has no public name)
+            writeln!(f, "error: {}: {msg}", loc_prefix)?;
+            writeln!(
+                f,
+                "{:gutter_width$}--> {}:{}:{}",
+                "", self.source.path, absolute_row, col
+            )?;
+            return fmt_snippet_window_with_mapping_or_fallback(
+                f,
+                l10n,
+                location,
+                self.source.text,
+                self.mapping,
+                msg,
+                self.crop_radius,
+            );
+        }
+
         let report = &[level
             .primary_title(format!("{}: {msg}", loc_prefix))
             .element(
